@@ -65,6 +65,13 @@ Theorem canon_sorted : forall v, deep_ordered (sort_deep v).
 Proof. exact canon_sorted_proof. Qed.
 Print Assumptions canon_sorted.
 
+(* sort_deep only reorders members (at every depth): the value canon_emit / canon_parse /
+   canon_injective speak about is the original one up to member order -- nothing is dropped,
+   duplicated or altered *)
+Theorem sort_deep_jperm : forall v, jperm v (sort_deep v).
+Proof. exact sort_deep_jperm_proof. Qed.
+Print Assumptions sort_deep_jperm.
+
 (* with distinct keys (a JSON object proper; every Python dict) the order is strict *)
 Theorem canon_sorted_strict : forall v, nodup_keys v -> keys_scalar v -> deep_sorted (sort_deep v).
 Proof. exact canon_sorted_strict_proof. Qed.
@@ -176,3 +183,31 @@ Theorem canon_reread_fixpoint :
     parse_json t = Some (json_of v) /\ canon (reread_deep rr (json_of v)) = JOk t.
 Proof. exact canon_reread_fixpoint_proof. Qed.
 Print Assumptions canon_reread_fixpoint.
+
+(* the hypotheses of canon_reread_fixpoint are satisfiable non-trivially (instance built by the
+   reviewer): is_double = exactly the double 1.5, rr = "0" -> "0.0", anything else -> "1.5";
+   all three premises hold and nums_double holds of [1.5].  (nums_double has no JInt case: the
+   reread fixed point does not speak about values containing Python ints.)                       *)
+Definition ex_is_double (neg : bool) (ds : list N) (n : Z) : Prop := neg = false /\ ds = [1; 5] /\ n = 1%Z.
+Definition ex_rr (t : ustring) : ustring := if ustr_eqb t [c_0] then [c_0; c_dot; c_0] else py_repr false [1; 5] 1.
+
+Example canon_reread_fixpoint_hyps_satisfiable :
+  (forall neg ds n, ex_is_double neg ds n -> wf_digits ds) /\
+  (forall neg ds n t, ex_is_double neg ds n -> denotes t neg ds n -> ex_rr t = py_repr neg ds n) /\
+  ex_rr [c_0] = [c_0; c_dot; c_0] /\
+  nums_double ex_is_double (JArr [JFloat (py_repr false [1; 5] 1)]) /\
+  (exists t, canon (JArr [JFloat (py_repr false [1; 5] 1)]) = JOk t /\
+             canon (reread_deep ex_rr (json_of (JArr [JFloat (py_repr false [1; 5] 1)]))) = JOk t).
+Proof.
+  split; [|split; [|split; [|split]]].
+  - intros neg ds n [_ [H _]]. subst. exact wf_digits_15.
+  - intros neg ds n t [H1 [H2 H3]] D. subst. unfold ex_rr.
+    destruct (ustr_eqb t [c_0]) eqn:E; [|reflexivity].
+    exfalso. apply ustr_eqb_eq in E. subst t. destruct D as [z D].
+    replace (read_number [c_0]) with (Some (false, 0, 0%Z)) in D by (vm_compute; reflexivity).
+    injection D as D1 D2. change (dval [1; 5]) with 15 in D1.
+    symmetry in D1. destruct (10 ^ N.of_nat z) eqn:P; [apply N.pow_nonzero in P; [exact P|discriminate]|discriminate].
+  - reflexivity.
+  - constructor. constructor; [|constructor]. constructor. right. right. exists false, [1; 5], 1%Z. repeat split.
+  - eexists. split; vm_compute; reflexivity.
+Qed.
